@@ -44,6 +44,15 @@ pub struct Ctx {
     pub tier: Tier,
 }
 
+/// Larger-than-usual case (deeper trees, longer histories, more rows): every fifth case of the thorough tier,
+/// one case in forty of the quick tier.
+pub fn draw_big(ctx: &Ctx, rng: &mut rng::Rng) -> bool {
+    match ctx.tier {
+        Tier::Thorough => rng.chance(0.2),
+        Tier::Quick => rng.chance(0.025),
+    }
+}
+
 pub struct PropDef {
     pub id: &'static str,
     pub level: &'static str,
